@@ -253,6 +253,20 @@ class Simulator(Computer, _mixins.CodeMixin):
                     f"not support 'shots=None' using '{self.__class__.__name__}'."
                 )
 
+    def _validate_resolved_instruction_parameters(
+        self, instructions: List[Instruction]
+    ) -> None:
+        """Validates the parameters which do not depend on measurement outcomes.
+
+        This way, invalid parameters are reported before any evolution.
+        """
+        if not self.config.validate:
+            return
+
+        for instruction in instructions:
+            if instruction._is_resolved():
+                instruction._validate(self._connector)
+
     def _validate_instructions(self, instructions: List[Instruction], d: int) -> None:
         self._validate_instruction_existence(instructions)
         self._validate_instruction_modes(instructions, d)
@@ -453,6 +467,8 @@ class Simulator(Computer, _mixins.CodeMixin):
         self._validate_instructions(instructions, d)
 
         self._validate_measurements_with_shots_none(instructions, shots)
+
+        self._validate_resolved_instruction_parameters(instructions)
 
         if initial_state is not None:
             self._validate_initial_state(initial_state, d)
